@@ -140,6 +140,12 @@ def judge(case, impl_res, ans):
         return ('CORR: chunks_kept is another admissible regular stride than the model\'s (the smallest that keeps at most the '
                 'requested number) - satisfies every clause of the statement; differs from the model of the code: correspondence '
                 'broken (the property is no longer SHOWN to hold by the tie to the model)')
+    if m.get('closed') is not None:
+        # no positive count: the selection is ONE filter over the spike ids (theorem selection_noCount_closed_form)
+        if m['closed'] != m['model']:
+            return 'MACHINERY: the model differs from its closed form without a count (contradicts selection_noCount_closed_form)'
+        if ok['out'] != m['closed']:
+            return 'SPEC: without a positive count the selection is not exactly the eligible spikes of the requested clusters'
     if not m['random'] and ok['out'] != m['model']:
         return 'MACHINERY: deterministic case accepted by the spec but different from the model'
     return None
